@@ -18,6 +18,21 @@ CHECKS={
  "C03":("E3h",EX,"every history of Set requests up to a length bound (BFS from every distinct reached state) is run through the real Set handler, stores and controllers to idle; after every acknowledged Set a fixed list of Get queries (PROTO and JSON) is compared with an independent reference model of gNMI semantics; multi-operation requests are re-run under every operation permutation and every single map-iteration-order deviation",
         "default oldest-first schedule (interleavings belong to C01/C02/C09); alphabet of 19 requests, 21 Get queries; length <=3 (quick) / <=4 (thorough); atomix replaced by simatomix (bound to the real one by ./check conformance)",
         "bounded-exhaustive history enumeration on the real code against a reference model (explicit-state BFS over request histories, snapshot/restore)"),
+ "C01":("E1a+E1x",MC,"explicit-state search of the any-time graph of the real controllers (every reconciler on every object from every state, effectful calls are transitions; single crashes at every effect boundary) for multi-target Sets with every verdict combination and neighbouring transactions; the all-or-nothing oracle is evaluated with the real Get on every state whose transaction is decided; candidates are confirmed by a search for an exact-queue (FIFO per watcher) schedule that is then executed for real",
+        "one Reconcile call is atomic; atomix replaced by simatomix; a single onos-config node; 2-3 targets, 1-2 transactions, <=1 crash",
+        "explicit-state model checking of the implementation (stateful BFS with snapshot/restore over real reconcile steps) + exact-schedule confirmation"),
+ "C02":("E1a+E1x",MC,"any-time graph of 2-3 overlapping transactions with crashes and connection faults; monitors on every transition: committed index never decreases, values change only by the merge of the next proposal in index order, every apply request is for a merged proposal whose predecessors have finished, per-device apply indexes never regress; candidates confirmed under exact queues",
+        "one Reconcile call is atomic (no pre-emption inside a step); fault budget 2, crash budget 1 (2 thorough)",
+        "explicit-state model checking of the implementation with transition monitors + exact-schedule confirmation"),
+ "C05":("E1a+E1x+E3h",MC,"any-time graph with document-dependent plugin verdicts; at the commit transition of every proposal the document the fake plugin last accepted for it, flattened independently, must equal the readable configuration; plus candidate documents of 99 999 ... 300 000 bytes through the real Set path (bytes received = bytes rendered, chunks <= 100 000)",
+        "the plugin is a fake ModelPluginServiceClient under the real registry; model mini",
+        "explicit-state model checking of the implementation with transition monitors + bounded input enumeration for sizes"),
+ "C09":("E1w+E1x",MC,"explicit-state search in the work-set model (pending (controller,id) pairs as a set, any order) of the real controllers, watchers and stores; on every idle state: one extra pass of every reconciler over every object must have no effect, and with all targets connected every transaction must be final; every candidate is confirmed by an exact-queue schedule executed for real, otherwise only counted",
+        "work-set model is an abstraction (confirmed by E1x before anything is reported); quick tier: 7 scenarios of <=25 000 states, thorough adds two-target and three-transaction scenarios",
+        "explicit-state model checking of the implementation (work-set scheduling) + exact-schedule confirmation"),
+ "C11":("E1a+E1x",MC,"any-time graph of two Sets on a connected target whose device answers an apply with each of the 16 non-OK gRPC codes (real statuses through the repository's client wrapper), bursts 1..2 (3 thorough), either transaction, with a crash and with SERIALIZABLE isolation; invariants on every state and oracles on the terminal states (nothing can act any more)",
+        "device is a simulated gNMI server over bufconn; scripted answers",
+        "explicit-state model checking of the implementation with fault enumeration + exact-schedule confirmation"),
 }
 NOT_YET="check not built yet in this session (planned, see DESIGN.md §4); not claimed until its check exists and passes"
 allp=[json.loads(l)['id'] for l in open('/verif/properties.jsonl')]
